@@ -34,10 +34,12 @@ CLAIMS = {
  "C02": ("Theorem is_subset_sound for ALL shapes a and well-formed b, plus the is_superset / is_superset_checked corollaries (with the KF1 carve-out inherited "
          "from inference, refuted without it). Correspondence on all level-1 pairs and random related deep pairs; oracle: witness documents of the left "
          "shape checked against the right shape for every accepted pair.", "6/C02"),
- "C03": ("Theorems: every well-formed shape is accepted by itself; for ANY number of sources, whenever the merged shape contains no OneOf every source is accepted in all three forms "
-         "(is_subset of its own shape, is_superset, is_superset_checked) — proved via transitivity of is_subset and 'merger dominates its operands' on the OneOf-free fragment. The general "
+ "C03": ("Theorems: every well-formed shape is accepted by itself; for ANY number of sources, whenever every OneOf node of the merged shape is a union of non-optional scalar kinds "
+         "(class scalar_oneofs of Model/OneOfClass.v, which contains every OneOf-free shape) every source is accepted in all three forms "
+         "(is_subset of its own shape, is_superset, is_superset_checked) — proved via downward closure of the class, transitivity of is_subset below it and 'a merge whose result is in the class "
+         "accepts both operands' for arbitrary well-formed operands (C03_scalar_oneofs_subset / _superset / C03_merge_accepts_operands / C03_subset_trans_scalar; the OneOf-free theorems are kept). The general "
          "statement is false of the faithful model and this is proved (C03_kf2_refuted: [true,null,1]); the complement of the theorem's hypothesis is exactly the known class KF2 "
-         "(extracted decidable predicate oneof_free), so at run time any failure outside it is reported as a violation.", "6/C03"),
+         "(extracted decidable predicate scalar_oneofs), so at run time any failure outside it is reported as a violation.", "6/C03"),
  "C06": ("Theorem paths_agree: for every duplicate-free document the text-path model and the value-path model (serde_json Map + From<&Value>) give the same outcome; "
          "visitor corollary; witness that duplicates legitimately differ. Correspondence of both paths (incl. JsonVisitor identity) on ~35k documents; oracle: "
          "from_str(text) == From<&Value>(serde_json(text)) on thousands of random renderings. Known finding KF5 (escaped member names).", "6/C06"),
@@ -77,7 +79,7 @@ PARTIAL = {
  "C04": "The theorem needs Forall scalar s (model characters are unbounded naturals; a Rust &str only holds scalars: witness C04_scalar_needed). The tie model <-> implementation is the executed correspondence. ",
  "C05": "PARTIAL BY NATURE: the NUMBER of nested frames is proved bounded for all inputs, but bytes per frame (hence actual stack use), wall time and the allocator are runtime facts outside the model; they are validated by running big inputs under a hang guard. Trusted additionally: the logos DFA semantics as modelled in Model/Lexer.v and the transliteration of the lelwel parser in Model/Parser.v, both tied to /repo by token/CST correspondence. ",
  "C07": "The tie model <-> implementation is the executed correspondence. Member names spelled with escapes ARE covered by same_tree_same_result (json_text relates a text to the tree with decoded names; Example C07_escaped_names_same_tree); only the model's own renderer (parse_render, hypothesis keys_ok) never produces escaped names - the checks re-spell names on the implementation. ",
- "C12": "Partial by nature: allocator, stack and wall-clock are runtime; the theorems bound call counts, allocations are measured.", "C03": "Partial: the theorem covers exactly the complement of the known class KF2 (merged shape OneOf-free); inside KF2 the property is refuted by witness.", "C13": "Partial: 'wf_module implies rustc accepts' is validated on rustc batches, not proved; codegen / convert_case / checksum are modelled (printable-ASCII member names) and validated by correspondence. ",
+ "C12": "Partial by nature: allocator, stack and wall-clock are runtime; the theorems bound call counts, allocations are measured.", "C03": "Partial: the theorem covers exactly the complement of the known class KF2 (merged shape OneOf-free or with OneOf nodes that are unions of non-optional scalars: scalar_oneofs); inside KF2 the property is refuted by witness.", "C13": "Partial: 'wf_module implies rustc accepts' is validated on rustc batches, not proved; codegen / convert_case / checksum are modelled (printable-ASCII member names) and validated by correspondence. ",
  "C14": "Partial: the item parser applied to the real text is Python (validated against the model's item list on every case). ",
  "C15": "Partial: serde_derive / serde_json are external - modelled (Model/Gen.v deser/reser) and validated by compile-and-run batches in the thorough tier; modules are judged by their items (the header is C13's business; the defect F12 is repaired). ",
  "C16": "Partial: determinism of the real code is a run-time observation (two runs, two processes); the text-level behaviour of json_shape 0.5.1 enters compile_json_m as a function argument. ",
